@@ -1,4 +1,4 @@
-import PytezosModel.Proofs.C06Group
+import PytezosModel.Proofs.C06Writer
 /-! C06 — local operation forging matches the Tezos operation binary format.
 
 `Impl.OpForge.forgeGroup` is the mirror of `forge_operation_group`: the bodies of the `forge_<kind>` functions are not
@@ -10,8 +10,9 @@ never an explicit (`default`, `Unit`) parameter).
 
 Full statement (properties.jsonl): for every group of the ten current-protocol kinds with well-formed fields the
 forged bytes are the canonical Tezos encoding: decoding them with the Tezos operation encoding returns the same branch
-and contents, and different groups never forge to the same bytes.  Here: `group_roundtrip` + `forgeGroup_injective`,
-for groups of any length and naturals of any size.  Well-formedness (`Spec.Op.WFGroup`) = the widths the schema fixes
+and contents, and different groups never forge to the same bytes.  Here: `forgeGroup_eq_canonical` (the bytes are the
+ones the schema's canonical writer produces), `group_roundtrip` and `forgeGroup_injective`, for groups of any length and
+naturals of any size.  Well-formedness (`Spec.Op.WFGroup`) = the widths the schema fixes
 (20-byte hashes, 32-byte branch, key widths, 96-byte proof), known address / key prefixes, entrypoint names of 1…31
 bytes, Micheline over known primitives, at least one content.  base58 (C09/C10), UTF-8 and JSON spelling are outside
 (handled at the harness boundary); the Micheline sub-codec is C05's. -/
@@ -62,6 +63,13 @@ any size) the forged bytes decode, with the Tezos operation encoding, to the sam
 theorem group_roundtrip (g : Group) (hw : WFGroup g = true) (bs : Bytes) (he : forgeGroup g = some bs) :
     decodeGroup bs = some (normGroup g) :=
   C06Proofs.rt_group reserved_entrypoints_eq_spec layouts_eq_spec g hw bs he
+
+/-- **the forged bytes are the canonical bytes**: on every well-formed group the mirror of `forge_operation_group`
+writes exactly what the canonical writer of the Tezos schema writes (`Spec.Op.writeGroup` uses the Tezos tables only —
+address / key tags, the ten reserved entrypoints by tag, elision of (`default`, `Unit`) — nothing regenerated from the
+source; the zarith, length-prefix and Micheline primitives are the shared ones of C05) -/
+theorem forgeGroup_eq_canonical (g : Group) (hw : WFGroup g = true) : forgeGroup g = writeGroup g :=
+  C06Proofs.eq_writeGroup reserved_entrypoints_eq_spec layouts_eq_spec source_recognised.1 g hw
 
 /-- different groups never forge to the same bytes -/
 theorem forgeGroup_injective (g₁ g₂ : Group) (h₁ : WFGroup g₁ = true) (h₂ : WFGroup g₂ = true) (bs : Bytes)
